@@ -251,6 +251,31 @@ func C03Dynamic() {
 		iv, ok := back.V.(value.IntValue)
 		return ok && sym.And(iv.Value() == x, back.I == v.I)
 	})
+	// a dynamic member whose own signature is a struct with a template-style name (the grammar accepts
+	// "Sample<double>"), plain or nested in a list: read by the signature-driven reader and by the decoder
+	for _, tsig := range []string{"(di)<Sample<double>,value,count>", "[(di)<Sample<double>,value,count>]", "(i(di)<Pair<double>,a,b>)<Outer<X>,n,p>"} {
+		d, c := sym.U64("tpl-d"), sym.U32("tpl-c")
+		body := zzCat(zzLE64(d), zzLE32(c))
+		switch tsig[0] {
+		case '[':
+			body = zzCat(zzLE32(1), body)
+		case '(':
+			if tsig[1] == 'i' {
+				body = zzCat(zzLE32(sym.U32("tpl-n")), body)
+			}
+		}
+		tv := zzWithValue{V: value.Opaque(tsig, body), I: sym.I16("tpl-i")}
+		tspec := zzCat(zzStr(tsig), body, zzLE16(uint16(tv.I)))
+		var tback zzWithValue
+		zzCheck("struct{value"+tsig+",int16}", "(mw)", tv, tspec, &tback, func() bool {
+			if tback.V == nil {
+				return false
+			}
+			var b0 bytes.Buffer
+			tback.V.Write(&b0)
+			return sym.And(sym.EqBytes(b0.Bytes(), zzCat(zzStr(tsig), body)), tback.I == tv.I)
+		})
+	}
 	sym.Reach("dynamic-done")
 }
 
@@ -684,4 +709,67 @@ func C03WideTypes() {
 		return sym.And(sym.And(back.F0 == v.F0, back.F63 == v.F63), sym.And(back.F64 == v.F64, back.F65 == v.F65))
 	})
 	sym.Reach("wide-done")
+}
+
+type zzPairKey struct{ A, B string }
+
+// C03MapCompositeKeys: maps whose keys are structures or dynamic values. The keys are concrete and chosen
+// so that distinct keys look alike under every textual rendering one might be tempted to order or index
+// them by (%v of {"a b","c"} and {"a","b c"}; Int(1) and Uint(1)); the values are symbolic. The encoder's
+// entry order is Go's, so the encoder side is checked through its length and the decoder, entry by entry.
+func C03MapCompositeKeys() {
+	x, y, z := sym.I32("x"), sym.I32("y"), sym.I32("z")
+	switch sym.Choose("keys", 2) {
+	case 0:
+		k := []zzPairKey{{"a b", "c"}, {"a", "b c"}, {"", "a b c"}}
+		m := map[zzPairKey]int32{k[0]: x, k[1]: y, k[2]: z}
+		var buf bytes.Buffer
+		sym.Assert(NewEncoder(nil, &buf).Encode(m) == nil, "pair-keys/encode-ok")
+		want := 4
+		for _, kk := range k {
+			want += 4 + len(kk.A) + 4 + len(kk.B) + 4
+		}
+		sym.Assert(buf.Len() == want, "pair-keys/encoded-length")
+		reader, err := signature.MakeReader("{(ss)i}")
+		sym.Assert(err == nil, "pair-keys/reader-built")
+		if err == nil {
+			r := bytes.NewReader(append(append([]byte{}, buf.Bytes()...), 0x77))
+			got, err := reader.Read(r)
+			sym.Assert(err == nil, "pair-keys/reader-accepts")
+			if err == nil {
+				sym.Assert(r.Len() == 1, "pair-keys/reader-consumes-exactly")
+				sym.Assert(sym.EqBytes(got, buf.Bytes()), "pair-keys/reader-returns-unchanged")
+			}
+		}
+		var back map[zzPairKey]int32
+		sym.Assert(NewDecoder(nil, bytes.NewReader(buf.Bytes())).Decode(&back) == nil, "pair-keys/decode-ok")
+		sym.Assert(len(back) == 3, "pair-keys/entries")
+		for i, v := range []int32{x, y, z} {
+			got, ok := back[k[i]]
+			sym.Assert(ok, "pair-keys/key-present")
+			sym.Assert(got == v, "pair-keys/value")
+		}
+	default:
+		type entry struct {
+			K value.Value
+			V int32
+		}
+		// a map keyed by dynamic values cannot be compared natively key by key (interface keys holding
+		// different concrete types are distinct keys): checked through the list-of-pairs view of the bytes
+		m := map[value.Value]int32{value.Int(1): x, value.Uint(1): y, value.Long(1): z}
+		var buf bytes.Buffer
+		sym.Assert(NewEncoder(nil, &buf).Encode(m) == nil, "value-keys/encode-ok")
+		var back []entry
+		sym.Assert(NewDecoder(nil, bytes.NewReader(buf.Bytes())).Decode(&back) == nil, "value-keys/decode-ok")
+		sym.Assert(len(back) == 3, "value-keys/entries")
+		seen := map[string]int32{}
+		for _, e := range back {
+			if e.K != nil {
+				seen[e.K.Signature()] = e.V
+			}
+		}
+		sym.Assert(len(seen) == 3, "value-keys/distinct-keys")
+		sym.Assert(sym.And(seen["i"] == x, sym.And(seen["I"] == y, seen["l"] == z)), "value-keys/values")
+	}
+	sym.Reach("composite-keys-done")
 }
